@@ -11,6 +11,8 @@ import (
 	"time"
 
 	"github.com/kercylan98/vivid"
+	"github.com/kercylan98/vivid/internal/mailbox"
+	"github.com/kercylan98/vivid/internal/remoting/serialize"
 	"github.com/kercylan98/vivid/internal/verif/vcodec"
 	"github.com/kercylan98/vivid/internal/verif/vexp"
 	"github.com/kercylan98/vivid/internal/verif/vnet"
@@ -21,7 +23,7 @@ import (
 const addrA, addrB = "127.0.0.1:1001", "127.0.0.1:1002"
 
 type params struct {
-	kind   string // concurrent-asks (two outside goroutines Ask through the system at the same moment; with the happens-before race detector) | bytes-burst (messages with a raw []byte payload, kept by the receiver and compared after the whole burst) | burst | two-senders | first-contact | both-ways | ask | idle-gap | idle-gap-noretry (reconnect limit 0)
+	kind   string // at-limit (one message whose encoded frame body is exactly size bytes BELOW the 4 MiB frame limit: size 0..5) | after-rejected (a message rejected by its writer after the writer grew by 70 KB, then n valid ones) | concurrent-asks (two outside goroutines Ask through the system at the same moment; with the happens-before race detector) | bytes-burst (messages with a raw []byte payload, kept by the receiver and compared after the whole burst) | burst | two-senders | first-contact | both-ways | ask | idle-gap | idle-gap-noretry (reconnect limit 0)
 	n      int
 	size   int    // payload size
 	chunks string // all | small
@@ -68,7 +70,7 @@ func scenario(p params, bounds []int) *vexp.Scenario {
 		Cfg:        cfg,
 		CheckRaces: p.kind == "concurrent-asks",
 		Bounds:     bounds,
-		Setup:  func(x *vexp.X) { vsys.CoarseSetupSends() },
+		Setup:      func(x *vexp.X) { vsys.CoarseSetupSends() },
 		Body: func(x *vexp.X) {
 			nw := vnet.Reset()
 			if p.chunks == "small" {
@@ -143,6 +145,24 @@ func scenario(p params, bounds []int) *vexp.Scenario {
 							seq[name]++
 							id := fmt.Sprintf("%s.%d", name, seq[name])
 							sent[name] = append(sent[name], id)
+							if p.kind == "at-limit" {
+								// calibrate the padding so that the frame body (the encoded envelope) has exactly the wanted length
+								probe, err := serialize.EncodeEnvelopWithRemoting(nil, mailbox.NewEnvelop(false, ctx.Ref(), target, msg(id, 0)))
+								if err != nil {
+									x.Fail("harness", "calibration encode: %v", err)
+									return
+								}
+								pad := 4<<20 - p.size - len(probe)
+								full, _ := serialize.EncodeEnvelopWithRemoting(nil, mailbox.NewEnvelop(false, ctx.Ref(), target, msg(id, pad)))
+								if len(full) != 4<<20-p.size {
+									x.Fail("harness", "calibration: body is %d bytes, wanted %d", len(full), 4<<20-p.size)
+								}
+								ctx.Tell(target, msg(id, pad))
+								continue
+							}
+							if p.kind == "after-rejected" && i == 1 {
+								ctx.Tell(target, &vcodec.PadTagMsg{Pad: bytes.Repeat([]byte{5}, 70000), Tag: strings.Repeat("t", 300)})
+							}
 							if p.kind == "bytes-burst" {
 								ctx.Tell(target, &vcodec.BytesMsg{ID: id, B: bytes.Repeat([]byte{byte(seq[name])}, p.size)})
 								continue
@@ -188,7 +208,7 @@ func scenario(p params, bounds []int) *vexp.Scenario {
 						}
 					})
 				}
-			case "burst", "bytes-burst":
+			case "burst", "bytes-burst", "at-limit", "after-rejected":
 				wa.Sys.Tell(wa.Ref("/s1"), vsys.Msg{ID: "go"})
 			case "two-senders", "first-contact":
 				wa.Sys.Tell(wa.Ref("/s1"), vsys.Msg{ID: "go"})
@@ -288,7 +308,7 @@ func scenario(p params, bounds []int) *vexp.Scenario {
 			}
 			for _, w := range []*vsys.World{wa, wb} {
 				for _, pb := range w.Pubs {
-					if pb.Type == "RemotingMessageDecodeFailedEvent" {
+					if pb.Type == "RemotingMessageDecodeFailedEvent" && !(p.kind == "after-rejected" && strings.Contains(fmt.Sprintf("%+v", pb.Event), "PadTagMsg")) {
 						x.Fail("no-decode-failure", "a frame failed to decode on a healthy link: %v", pb.Event)
 					}
 				}
@@ -326,6 +346,12 @@ func build(tier string) []*vexp.Scenario {
 		if size <= 64 {
 			out = append(out, scenario(params{"bytes-burst", 3, size, "small"}, b1))
 		}
+	}
+	for k := 0; k <= 5; k++ {
+		out = append(out, scenario(params{"at-limit", 1, k, "all"}, b0))
+	}
+	for _, n := range []int{1, 3} {
+		out = append(out, scenario(params{"after-rejected", n, 10, "all"}, b0))
 	}
 	out = append(out, scenario(params{"concurrent-asks", 1, 10, "all"}, b1))
 	out = append(out, scenario(params{"concurrent-asks", 2, 10, "all"}, b0))
